@@ -275,5 +275,574 @@ theorem lexEmitTag_tok (hs2 : SinkSafe2 env.ops inp) {a : AbsL} (c : Common) (l 
         (({ c with lastTextType := .data } : Common).pos + 1) hls hlen (lexStampTag_valid _ _ _ hvalid)
       exact ⟨_, r1, hkill _, by rw [r2]; exact hi2, r3⟩
 
+
+/-! ### the other lexer actions -/
+
+theorem NTValid_of_tok {a : ANT} {ls hi L : Nat} {nt : Option NonTagOutline} (h : TokNT a ls hi nt)
+    (hne : a ≠ .top) (hL : hi ≤ L) : NTValid L nt := by
+  cases nt with
+  | none => trivial
+  | some o =>
+    cases o with
+    | comment r =>
+      cases a with
+      | none => simp only [TokNT] at h; cases h
+      | ok => exact (h r rfl).valid hL
+      | marked k => exact (h r rfl).ok.valid hL
+      | top => exact absurd rfl hne
+    | _ => trivial
+
+/-- the second half of the `…_and_eof` actions -/
+theorem andThenEof_tok (hs2 : SinkSafe2 env.ops inp) {c : Common} {l1 : LexRegs} {xs : Sim}
+    (r : M κ × Option Signal) (hr : r.1.r = .lexer l1) (hc : r.1.c = c) (hsim : r.1.x.sim = xs)
+    (hle : l1.lexemeStart ≤ c.pos) (h3 : c.pos ≤ inp.length) (herr : ∀ e, r.2 = some (.err e) → ErrNot T2 e) :
+    ∃ ls2, (andThen r (lexEmitEof env inp)).1.r = .lexer { l1 with lexemeStart := ls2 } ∧
+      (andThen r (lexEmitEof env inp)).1.x.sim = xs ∧
+      ∀ e, (andThen r (lexEmitEof env inp)).2 = some (.err e) → ErrNot T2 e := by
+  unfold andThen
+  split
+  · rename_i s hs
+    exact ⟨l1.lexemeStart, hr, hsim, fun e h => by
+      simp only [Option.some.injEq] at h; subst h; exact herr e hs⟩
+  · cases hr1 : r.1 with
+    | mk c0 r0 x0 =>
+      rw [hr1] at hr hc hsim
+      dsimp only at hr hc hsim
+      subst hr hc
+      obtain ⟨e1, e2, e3⟩ := lexEmitEof_tok hs2 c0 l1 x0 hle h3
+      exact ⟨c0.pos, e1, by rw [e2]; exact hsim, e3⟩
+
+theorem TokL.kill_nt {a : AbsL} {ls hi ls' hi' : Nat} {l l' : LexRegs} (h : TokL a ls hi l)
+    (e1 : l'.curTag = l.curTag) (e2 : l'.curAttr = l.curAttr) (e3 : l'.curNonTag = none) :
+    TokL { a.kill with nt := .none } ls' hi' l' := by
+  have h' := TokL.kill (l' := { l' with curNonTag := l.curNonTag }) (ls' := ls') (hi' := hi') h e1 e2 rfl
+  exact ⟨h'.1, h'.2.1, e3, h'.2.2.2⟩
+
+/-- **Lexer actions: the abstract transformer is sound.** -/
+theorem lexAct_tok (hs2 : SinkSafe2 env.ops inp) {hb f : Bool} {a a' : AbsL} (act : ActName) (c : Common)
+    (l : LexRegs) (x : Ctx κ) (hm : MInvA W inp.length lo hb f ⟨c, .lexer l, x⟩)
+    (hfl : ∃ f', flagStep hb act f = some f') (ht : TokL a l.lexemeStart c.pos l) (hinv : Inv x.sim)
+    (hl : absTokL act f a = some a') : LexTokPost a' c.pos (lexAct env act inp c l x) := by
+  obtain ⟨a1, a2, a3, a4, a5⟩ := hm
+  simp only [RegsA] at a5
+  dsimp only at a1 a2 a3 a4 a5
+  have hpos : c.pos = c.nextPos - 1 := rfl
+  have hposL : c.pos ≤ inp.length := by rw [hpos]; exact a3
+  obtain ⟨f', hfl⟩ := hfl
+  obtain ⟨t1, t2, t3, t4⟩ := ht
+  have ht : TokL a l.lexemeStart c.pos l := ⟨t1, t2, t3, t4⟩
+  cases act
+  case emitText =>
+    simp only [absTokL, Option.some.injEq] at hl
+    subst hl
+    simp only [lexAct]
+    obtain ⟨ls', r1, r2, r3, r4, r5⟩ := lexEmitText_tok hs2 c l x hposL
+    exact lexEmit_tok (l' := l) ht r1 rfl rfl rfl r2 hinv r5
+  case emitTextAndEof =>
+    simp only [absTokL, Option.some.injEq] at hl
+    subst hl
+    have hf : f = true := by
+      simp only [flagStep, ActName.isInclEmit, ActName.isExclEmit, Bool.false_eq_true, if_false, if_true] at hfl
+      split at hfl
+      · assumption
+      · cases hfl
+    have hle := a5.2.2 hf
+    simp only [lexAct]
+    obtain ⟨ls', r1, r2, r3, r4, r5⟩ := lexEmitText_tok hs2 c l x hposL
+    have hls' : ls' ≤ c.pos := by
+      rcases r4 with h | h
+      · rw [h, hpos]; exact hle
+      · rw [h]; exact Nat.le_refl _
+    obtain ⟨ls2, q1, q2, q3⟩ := andThenEof_tok hs2 _ r1 r3 r2 hls' hposL r5
+    exact lexEmit_tok (l' := l) ht q1 rfl rfl rfl q2 hinv q3
+  case emitCurrentToken =>
+    have hbt : hb = true := by
+      simp only [flagStep, ActName.isInclEmit, if_true] at hfl
+      split at hfl
+      · assumption
+      · cases hfl
+    have hlt := a4 hbt
+    simp only [absTokL] at hl
+    have hne : a.nt ≠ .top := by intro h; rw [h] at hl; cases hl
+    have hl' : a' = { a.kill with nt := .none } := by
+      cases hn : a.nt <;> simp only [hn] at hl <;> first | exact absurd hn hne | (simp only [Option.some.injEq] at hl; exact hl.symm)
+    subst hl'
+    simp only [lexAct]
+    obtain ⟨r1, r2, r3⟩ := lexEmitNonTag_tok hs2 c { l with curNonTag := none } x l.curNonTag (c.pos + 1)
+      (by rw [hpos]; exact a5.2.1) (by rw [hpos]; omega) (NTValid_of_tok t3 hne hposL)
+    exact ⟨_, r1, TokL.kill_nt ht rfl rfl rfl, by rw [r2]; exact hinv, r3⟩
+  case emitCurrentTokenAndEof =>
+    have hf : f = true := by
+      simp only [flagStep, ActName.isInclEmit, ActName.isExclEmit, Bool.false_eq_true, if_false, if_true] at hfl
+      split at hfl
+      · assumption
+      · cases hfl
+    have hle := a5.2.2 hf
+    simp only [absTokL] at hl
+    have hne : a.nt ≠ .top := by intro h; rw [h] at hl; cases hl
+    have hl' : a' = { a.kill with nt := .none } := by
+      cases hn : a.nt <;> simp only [hn] at hl <;> first | exact absurd hn hne | (simp only [Option.some.injEq] at hl; exact hl.symm)
+    subst hl'
+    simp only [lexAct]
+    obtain ⟨r1, r2, r3⟩ := lexEmitNonTag_tok hs2 c { l with curNonTag := none } x l.curNonTag c.pos
+      (by rw [hpos]; exact hle) hposL (NTValid_of_tok t3 hne hposL)
+    obtain ⟨ls2, q1, q2, q3⟩ := andThenEof_tok hs2 _ r1 (lexEmitNonTag_keep _ _ _ _ _).1 r2 (Nat.le_refl _) hposL r3
+    exact ⟨_, q1, TokL.kill_nt ht rfl rfl rfl, by rw [q2]; exact hinv, q3⟩
+  case emitRawWithoutToken =>
+    have hbt : hb = true := by
+      simp only [flagStep, ActName.isInclEmit, if_true] at hfl
+      split at hfl
+      · assumption
+      · cases hfl
+    have hlt := a4 hbt
+    simp only [absTokL, Option.some.injEq] at hl
+    subst hl
+    simp only [lexAct]
+    obtain ⟨r1, r2, r3⟩ := lexEmitNonTag_tok hs2 c l x none (c.pos + 1)
+      (by rw [hpos]; exact a5.2.1) (by rw [hpos]; omega) trivial
+    exact lexEmit_tok (l' := l) ht r1 rfl rfl rfl r2 hinv r3
+  case emitRawWithoutTokenAndEof =>
+    have hf : f = true := by
+      simp only [flagStep, ActName.isInclEmit, ActName.isExclEmit, Bool.false_eq_true, if_false, if_true] at hfl
+      split at hfl
+      · assumption
+      · cases hfl
+    have hle := a5.2.2 hf
+    simp only [absTokL, Option.some.injEq] at hl
+    subst hl
+    simp only [lexAct]
+    obtain ⟨r1, r2, r3⟩ := lexEmitNonTag_tok hs2 c l x none c.pos (by rw [hpos]; exact hle) hposL trivial
+    obtain ⟨ls2, q1, q2, q3⟩ := andThenEof_tok hs2 _ r1 (lexEmitNonTag_keep _ _ _ _ _).1 r2 (Nat.le_refl _) hposL r3
+    exact lexEmit_tok (l' := l) ht q1 rfl rfl rfl q2 hinv q3
+  case emitTag =>
+    have hbt : hb = true := by
+      simp only [flagStep, ActName.isInclEmit, if_true] at hfl
+      split at hfl
+      · assumption
+      · cases hfl
+    have hlt := a4 hbt
+    simp only [absTokL] at hl
+    have hk : a.tag = .start ∨ a.tag = .end_ := by
+      cases hn : a.tag <;> simp only [hn] at hl <;> first | exact Or.inl rfl | exact Or.inr rfl | cases hl
+    have hl' : a' = { a.kill with tag := .none } := by
+      rcases hk with hk | hk <;> simp only [hk, Option.some.injEq] at hl <;> exact hl.symm
+    subst hl'
+    simp only [lexAct]
+    exact lexEmitTag_tok hs2 c l x ht hinv (by rw [hpos]; exact a5.2.1) (by rw [hpos]; omega) hk
+  case createStartTag =>
+    simp only [absTokL, Option.some.injEq] at hl
+    subst hl
+    simp only [lexAct]
+    exact lexQuiet_tok c _ x none rfl
+      ⟨⟨_, rfl, rfl, ⟨Nat.le_refl _, Nat.zero_le _, Or.inr rfl⟩, fun x hx => by cases hx⟩, t2, t3, t4⟩ hinv
+      (fun e h => by cases h)
+  case createEndTag =>
+    simp only [absTokL, Option.some.injEq] at hl
+    subst hl
+    simp only [lexAct]
+    exact lexQuiet_tok c _ x none rfl
+      ⟨⟨_, rfl, rfl, ⟨Nat.le_refl _, Nat.zero_le _, Or.inr rfl⟩⟩, t2, t3, t4⟩ hinv (fun e h => by cases h)
+  case createDoctype =>
+    simp only [absTokL, Option.some.injEq] at hl
+    subst hl
+    simp only [lexAct]
+    exact lexQuiet_tok c _ x none rfl ⟨t1, t2, fun r hr => (by cases hr), t4⟩ hinv (fun e h => by cases h)
+  case createComment =>
+    simp only [absTokL, Option.some.injEq] at hl
+    subst hl
+    simp only [lexAct]
+    refine lexQuiet_tok c _ x none rfl ⟨t1, t2, fun r hr => ?_, t4⟩ hinv (fun e h => by cases h)
+    simp only [Option.some.injEq, NonTagOutline.comment.injEq] at hr
+    subst hr
+    exact ⟨Nat.le_refl _, Nat.zero_le _, Or.inr rfl⟩
+  case startTokenPart =>
+    simp only [absTokL, Option.some.injEq] at hl
+    subst hl
+    simp only [lexAct]
+    exact lexQuiet_tok c _ x none rfl ⟨t1, t2, t3, fun hf => ⟨by rw [hpos]; exact a5.2.2 hf, Nat.le_refl _⟩⟩ hinv
+      (fun e h => by cases h)
+  case markCommentTextEnd =>
+    simp only [lexAct]
+    have hR : a.tps = true → RangeM l.lexemeStart c.pos 0 (tokenPartRange c l) :=
+      fun htps => ⟨(t4 htps).2, Nat.le_refl _, (t4 htps).1⟩
+    split
+    · rename_i old hcn
+      cases hn : a.nt <;> simp only [absTokL, hn, Option.some.injEq] at hl <;> subst hl
+      · simp only [hn, TokNT] at t3; rw [t3] at hcn; cases hcn
+      · refine lexQuiet_tok c _ x none rfl ⟨t1, t2, ?_, t4⟩ hinv (fun e h => by cases h)
+        dsimp only
+        split
+        · rename_i htps
+          intro r hr
+          simp only [Option.some.injEq, NonTagOutline.comment.injEq] at hr
+          subst hr
+          exact hR htps
+        · trivial
+      · refine lexQuiet_tok c _ x none rfl ⟨t1, t2, ?_, t4⟩ hinv (fun e h => by cases h)
+        dsimp only
+        split
+        · rename_i htps
+          intro r hr
+          simp only [Option.some.injEq, NonTagOutline.comment.injEq] at hr
+          subst hr
+          exact hR htps
+        · trivial
+      · exact lexQuiet_tok c _ x none rfl ⟨t1, t2, trivial, t4⟩ hinv (fun e h => by cases h)
+    · rename_i hnc
+      cases hn : a.nt <;> simp only [absTokL, hn, Option.some.injEq] at hl <;> subst hl
+      · exact lexQuiet_tok c l x none rfl ⟨t1, t2, by simpa only [hn] using t3, t4⟩ hinv (fun e h => by cases h)
+      · refine lexQuiet_tok c l x none rfl ⟨t1, t2, ?_, t4⟩ hinv (fun e h => by cases h)
+        dsimp only
+        split
+        · intro r hr; exact absurd hr (hnc r)
+        · trivial
+      · refine lexQuiet_tok c l x none rfl ⟨t1, t2, ?_, t4⟩ hinv (fun e h => by cases h)
+        dsimp only
+        split
+        · intro r hr; exact absurd hr (hnc r)
+        · trivial
+      · exact lexQuiet_tok c l x none rfl ⟨t1, t2, trivial, t4⟩ hinv (fun e h => by cases h)
+  case shiftCommentTextEndBy n =>
+    simp only [lexAct]
+    split
+    · rename_i t hcn
+      cases hn : a.nt <;> simp only [absTokL, hn, Option.some.injEq] at hl <;> subst hl
+      · simp only [hn, TokNT] at t3; rw [t3] at hcn; cases hcn
+      · exact lexQuiet_tok c _ x none rfl ⟨t1, t2, trivial, t4⟩ hinv (fun e h => by cases h)
+      · rename_i k
+        refine lexQuiet_tok c _ x none rfl ⟨t1, t2, ?_, t4⟩ hinv (fun e h => by cases h)
+        dsimp only
+        split
+        · rename_i hnk
+          simp only [hn, TokNT] at t3
+          have := t3 t hcn
+          intro r hr
+          simp only [Option.some.injEq, NonTagOutline.comment.injEq] at hr
+          subst hr
+          exact ⟨by have := this.1; dsimp only; omega, by have := this.2.1; dsimp only; omega, this.2.2⟩
+        · trivial
+      · exact lexQuiet_tok c _ x none rfl ⟨t1, t2, trivial, t4⟩ hinv (fun e h => by cases h)
+    · rename_i hnc
+      cases hn : a.nt <;> simp only [absTokL, hn, Option.some.injEq] at hl <;> subst hl
+      · exact lexQuiet_tok c l x none rfl ⟨t1, t2, by simpa only [hn] using t3, t4⟩ hinv (fun e h => by cases h)
+      · exact lexQuiet_tok c l x none rfl ⟨t1, t2, trivial, t4⟩ hinv (fun e h => by cases h)
+      · refine lexQuiet_tok c l x none rfl ⟨t1, t2, ?_, t4⟩ hinv (fun e h => by cases h)
+        dsimp only
+        split
+        · intro r hr; exact absurd hr (hnc r)
+        · trivial
+      · exact lexQuiet_tok c l x none rfl ⟨t1, t2, trivial, t4⟩ hinv (fun e h => by cases h)
+  case finishTagName =>
+    simp only [absTokL] at hl
+    simp only [lexAct]
+    have hk : a.tag = .start ∨ a.tag = .end_ := by
+      cases hn : a.tag <;> simp only [hn] at hl <;> first | exact Or.inl rfl | exact Or.inr rfl | cases hl
+    have hex : ∃ o, l.curTag = some o ∧ TagOK l.lexemeStart c.pos o ∧
+        ((a.tag = .start ∧ o.isStart = true) ∨ (a.tag = .end_ ∧ o.isStart = false)) := by
+      rcases hk with hk | hk <;> simp only [hk, TokTag] at t1 <;> obtain ⟨o, e1, e2, e3⟩ := t1
+      · exact ⟨o, e1, e3, Or.inl ⟨hk, e2⟩⟩
+      · exact ⟨o, e1, e3, Or.inr ⟨hk, e2⟩⟩
+    obtain ⟨o, hct, hok, hkind⟩ := hex
+    rw [hct]
+    dsimp only
+    have hl' : a' = if a.tps then a else { a with tag := .top } := by
+      rcases hk with hk | hk <;> simp only [hk, Option.some.injEq] at hl <;> exact hl.symm
+    subst hl'
+    refine lexQuiet_tok c _ x none rfl ?_ hinv (fun e h => by cases h)
+    split
+    · rename_i htps
+      refine ⟨?_, t2, t3, t4⟩
+      have hr : RangeOK l.lexemeStart c.pos 0 (tokenPartRange c l) :=
+        ⟨(t4 htps).2, Nat.le_refl _, Or.inl (t4 htps).1⟩
+      have hok' : TagOK l.lexemeStart c.pos (setTagName o (tokenPartRange c l)) := by
+        cases o with
+        | startTag n hsh ns as sc => exact ⟨hr, hok.2⟩
+        | endTag n hsh => exact hr
+      have his : (setTagName o (tokenPartRange c l)).isStart = o.isStart := by cases o <;> rfl
+      rcases hkind with ⟨hk', hs'⟩ | ⟨hk', hs'⟩
+      · simp only [hk', TokTag]; exact ⟨_, rfl, by rw [his]; exact hs', hok'⟩
+      · simp only [hk', TokTag]; exact ⟨_, rfl, by rw [his]; exact hs', hok'⟩
+    · exact ⟨trivial, t2, t3, t4⟩
+  case updateTagNameHash =>
+    simp only [absTokL] at hl
+    simp only [lexAct]
+    have hk : a.tag = .start ∨ a.tag = .end_ := by
+      cases hn : a.tag <;> simp only [hn] at hl <;> first | exact Or.inl rfl | exact Or.inr rfl | cases hl
+    have hl' : a' = a := by
+      rcases hk with hk | hk <;> simp only [hk, Option.some.injEq] at hl <;> exact hl.symm
+    subst hl'
+    split
+    · rename_i ch _
+      have hex : ∃ o, l.curTag = some o := by
+        rcases hk with hk | hk <;> simp only [hk, TokTag] at t1 <;> obtain ⟨o, e1, _, _⟩ := t1 <;> exact ⟨o, e1⟩
+      obtain ⟨o, hct⟩ := hex
+      rw [hct]
+      dsimp only
+      refine lexQuiet_tok c _ x none rfl ⟨?_, t2, t3, t4⟩ hinv (fun e h => by cases h)
+      have hs : (updTagHash o ch).isStart = o.isStart := by cases o <;> rfl
+      have hok : ∀ ls hi, TagOK ls hi o → TagOK ls hi (updTagHash o ch) := by
+        intro ls hi h; cases o <;> exact h
+      rcases hk with hk | hk <;> simp only [hk, TokTag, hct, Option.some.injEq] at t1 ⊢ <;>
+        obtain ⟨o', e1, e2, e3⟩ := t1 <;> subst e1 <;> exact ⟨_, rfl, by rw [hs]; exact e2, hok _ _ e3⟩
+    · exact lexQuiet_tok c l x none rfl ht hinv (fun e h => by cases h)
+  case markAsSelfClosing =>
+    simp only [absTokL, Option.some.injEq] at hl
+    subst hl
+    simp only [lexAct]
+    split
+    · rename_i n hsh ns as sc hct
+      refine lexQuiet_tok c _ x none rfl ⟨?_, t2, t3, t4⟩ hinv (fun e h => by cases h)
+      cases hn : a.tag <;> simp only [hn, TokTag, hct, Option.some.injEq] at t1 ⊢
+      · cases t1
+      · obtain ⟨o, e1, e2, e3⟩ := t1; subst e1; exact ⟨_, rfl, rfl, e3⟩
+      · obtain ⟨o, e1, e2, e3⟩ := t1; subst e1; cases e2
+    · exact lexQuiet_tok c l x none rfl ht hinv (fun e h => by cases h)
+  case startAttr =>
+    simp only [absTokL] at hl
+    simp only [lexAct]
+    have hdef : AttrOK l.lexemeStart c.pos AttrOutline.default :=
+      ⟨⟨Nat.le_refl _, Nat.zero_le _, Or.inr rfl⟩, ⟨Nat.le_refl _, Nat.zero_le _, Or.inr rfl⟩⟩
+    split
+    · -- the attribute is started
+      rename_i n hsh ns as sc hct
+      cases hn : a.tag with
+      | start =>
+        simp only [hn, Option.some.injEq] at hl
+        subst hl
+        refine lexQuiet_tok c _ x none rfl ⟨by simpa only [hn] using t1, ?_, t3, ?_⟩ hinv (fun e h => by cases h)
+        · intro y hy; simp only [Option.some.injEq] at hy; subst hy; exact hdef
+        · intro hf; exact ⟨by rw [hpos]; exact a5.2.2 hf, Nat.le_refl _⟩
+      | top =>
+        simp only [hn, Option.some.injEq] at hl
+        subst hl
+        refine lexQuiet_tok c _ x none rfl ⟨trivial, ?_, t3, ?_⟩ hinv (fun e h => by cases h)
+        · dsimp only
+          cases a.attr <;> dsimp only <;> first | trivial | (intro y hy; simp only [Option.some.injEq] at hy; subst hy; exact hdef)
+        · intro hf
+          simp only [Bool.and_eq_true] at hf
+          exact ⟨by rw [hpos]; exact a5.2.2 hf.2, Nat.le_refl _⟩
+      | none => simp only [hn, TokTag] at t1; rw [t1] at hct; cases hct
+      | end_ =>
+        simp only [hn, TokTag] at t1
+        obtain ⟨o, e1, e2, _⟩ := t1
+        rw [hct] at e1
+        simp only [Option.some.injEq] at e1
+        subst e1
+        cases e2
+    · -- not a start tag: nothing happens
+      rename_i hnot
+      cases hn : a.tag with
+      | start =>
+        simp only [hn, TokTag] at t1
+        obtain ⟨o, e1, e2, _⟩ := t1
+        cases o with
+        | startTag n hsh ns as sc => exact absurd e1 (hnot n hsh ns as sc)
+        | endTag n hsh => cases e2
+      | top =>
+        simp only [hn, Option.some.injEq] at hl
+        subst hl
+        refine lexQuiet_tok c l x none rfl ⟨trivial, ?_, t3, ?_⟩ hinv (fun e h => by cases h)
+        · dsimp only
+          cases ha : a.attr <;> dsimp only <;> simp only [ha, TokAttr] at t2 ⊢
+          · intro y hy; rw [t2] at hy; cases hy
+          · exact t2
+        · intro hf
+          simp only [Bool.and_eq_true] at hf
+          exact t4 hf.1
+      | none =>
+        simp only [hn, Option.some.injEq] at hl
+        subst hl
+        exact lexQuiet_tok c l x none rfl ht hinv (fun e h => by cases h)
+      | end_ =>
+        simp only [hn, Option.some.injEq] at hl
+        subst hl
+        exact lexQuiet_tok c l x none rfl ht hinv (fun e h => by cases h)
+  case finishAttrName =>
+    simp only [lexAct]
+    split
+    · rename_i y hca
+      cases ha : a.attr <;> simp only [absTokL, ha, Option.some.injEq] at hl
+      · simp only [ha, TokAttr] at t2; rw [t2] at hca; cases hca
+      · by_cases htps : a.tps = true
+        · rw [if_pos htps] at hl
+          subst hl
+          refine lexQuiet_tok c _ x none rfl ⟨t1, ?_, t3, t4⟩ hinv (fun e h => by cases h)
+          simp only [ha, TokAttr]
+          intro z hz
+          simp only [Option.some.injEq] at hz
+          subst hz
+          have h4 := t4 htps
+          simp only [tokenPartRange]
+          exact ⟨⟨h4.2, Nat.le_refl _, Or.inl h4.1⟩, ⟨Nat.le_refl _, Nat.le_refl _, Or.inl (Nat.le_trans h4.1 h4.2)⟩⟩
+        · rw [if_neg htps] at hl
+          subst hl
+          exact lexQuiet_tok c _ x none rfl ⟨t1, trivial, t3, t4⟩ hinv (fun e h => by cases h)
+      · subst hl
+        exact lexQuiet_tok c _ x none rfl ⟨t1, by simp only [ha, TokAttr], t3, t4⟩ hinv (fun e h => by cases h)
+    · rename_i hnone
+      have hcan : l.curAttr = none := hnone
+      have hany : ∀ q : AAttr, TokAttr q l.lexemeStart c.pos l.curAttr := by
+        intro q; rw [hcan]; cases q <;> simp [TokAttr]
+      cases ha : a.attr <;> simp only [absTokL, ha, Option.some.injEq] at hl
+      · subst hl; exact lexQuiet_tok c l x none rfl ht hinv (fun e h => by cases h)
+      · by_cases htps : a.tps = true
+        · rw [if_pos htps] at hl; subst hl
+          exact lexQuiet_tok c l x none rfl ht hinv (fun e h => by cases h)
+        · rw [if_neg htps] at hl; subst hl
+          exact lexQuiet_tok c l x none rfl ⟨t1, hany _, t3, t4⟩ hinv (fun e h => by cases h)
+      · subst hl; exact lexQuiet_tok c l x none rfl ht hinv (fun e h => by cases h)
+  case finishAttrValue =>
+    simp only [lexAct]
+    split
+    · rename_i y hca
+      cases ha : a.attr <;> simp only [absTokL, ha, Option.some.injEq] at hl
+      · simp only [ha, TokAttr] at t2; rw [t2] at hca; cases hca
+      · by_cases htps : a.tps = true
+        · rw [if_pos htps] at hl
+          subst hl
+          refine lexQuiet_tok c _ x none rfl ⟨t1, ?_, t3, t4⟩ hinv (fun e h => by cases h)
+          simp only [ha, TokAttr] at t2 ⊢
+          intro z hz
+          simp only [Option.some.injEq] at hz
+          subst hz
+          have h4 := t4 htps
+          simp only [tokenPartRange]
+          exact ⟨(t2 y hca).1, ⟨h4.2, Nat.le_refl _, Or.inl h4.1⟩⟩
+        · rw [if_neg htps] at hl
+          subst hl
+          exact lexQuiet_tok c _ x none rfl ⟨t1, trivial, t3, t4⟩ hinv (fun e h => by cases h)
+      · subst hl
+        exact lexQuiet_tok c _ x none rfl ⟨t1, by simp only [ha, TokAttr], t3, t4⟩ hinv (fun e h => by cases h)
+    · rename_i hnone
+      have hcan : l.curAttr = none := hnone
+      have hany : ∀ q : AAttr, TokAttr q l.lexemeStart c.pos l.curAttr := by
+        intro q; rw [hcan]; cases q <;> simp [TokAttr]
+      cases ha : a.attr <;> simp only [absTokL, ha, Option.some.injEq] at hl
+      · subst hl; exact lexQuiet_tok c l x none rfl ht hinv (fun e h => by cases h)
+      · by_cases htps : a.tps = true
+        · rw [if_pos htps] at hl; subst hl
+          exact lexQuiet_tok c l x none rfl ht hinv (fun e h => by cases h)
+        · rw [if_neg htps] at hl; subst hl
+          exact lexQuiet_tok c l x none rfl ⟨t1, hany _, t3, t4⟩ hinv (fun e h => by cases h)
+      · subst hl; exact lexQuiet_tok c l x none rfl ht hinv (fun e h => by cases h)
+  case finishAttr =>
+    simp only [absTokL, Option.some.injEq] at hl
+    simp only [lexAct]
+    -- the abstract tag after the action
+    have htag : a'.tag = (match a.tag, a.attr with | .start, .top => .top | t, _ => t) ∧ a'.attr = .none ∧
+        a'.nt = a.nt ∧ a'.tps = a.tps := by subst hl; exact ⟨rfl, rfl, rfl, rfl⟩
+    obtain ⟨g1, g2, g3, g4⟩ := htag
+    have hrest : ∀ l' : LexRegs, l'.curAttr = none → l'.curNonTag = l.curNonTag → l'.tokenPartStart = l.tokenPartStart →
+        l'.lexemeStart = l.lexemeStart → TokTag a'.tag l.lexemeStart c.pos l'.curTag →
+        TokL a' l.lexemeStart c.pos l' := by
+      intro l' e1 e2 e3 e4 e5
+      refine ⟨e5, by rw [g2]; exact e1, by rw [g3, e2]; exact t3, by rw [g4, e3]; exact t4⟩
+    split
+    · rename_i y hca
+      split
+      · -- pushed onto a start tag
+        rename_i n hsh ns as sc hct
+        refine lexQuiet_tok c _ x none rfl (hrest _ rfl rfl rfl rfl ?_) hinv (fun e h => by cases h)
+        rw [g1]
+        dsimp only
+        cases hn : a.tag with
+        | none => simp only [hn, TokTag] at t1; rw [t1] at hct; cases hct
+        | top => cases a.attr <;> trivial
+        | end_ =>
+          simp only [hn, TokTag] at t1
+          obtain ⟨o, e1, e2, _⟩ := t1
+          rw [hct] at e1; simp only [Option.some.injEq] at e1; subst e1; cases e2
+        | start =>
+          simp only [hn, TokTag] at t1
+          obtain ⟨o, e1, e2, e3⟩ := t1
+          rw [hct] at e1; simp only [Option.some.injEq] at e1; subst e1
+          cases ha : a.attr with
+          | top => trivial
+          | none => simp only [ha, TokAttr] at t2; rw [t2] at hca; cases hca
+          | ok =>
+            simp only [ha, TokAttr] at t2
+            dsimp only
+            refine ⟨_, rfl, rfl, e3.1, fun z hz => ?_⟩
+            simp only [List.mem_append, List.mem_singleton] at hz
+            rcases hz with hz | hz
+            · exact e3.2 z hz
+            · subst hz; exact t2 _ hca
+      · rename_i hnot
+        refine lexQuiet_tok c _ x none rfl (hrest _ rfl rfl rfl rfl ?_) hinv (fun e h => by cases h)
+        rw [g1]
+        dsimp only
+        cases hn : a.tag with
+        | start =>
+          simp only [hn, TokTag] at t1
+          obtain ⟨o, e1, e2, _⟩ := t1
+          cases o with
+          | startTag n hsh ns as sc => exact absurd e1 (hnot n hsh ns as sc)
+          | endTag n hsh => cases e2
+        | none => cases a.attr <;> simpa only [hn] using t1
+        | top => cases a.attr <;> trivial
+        | end_ => cases a.attr <;> simpa only [hn] using t1
+    · rename_i hnone
+      have hcan : l.curAttr = none := hnone
+      refine lexQuiet_tok c l x none rfl (hrest l hcan rfl rfl rfl ?_) hinv (fun e h => by cases h)
+      rw [g1]
+      cases hn : a.tag with
+      | start => cases ha : a.attr <;> first | trivial | simpa only [hn] using t1
+      | none => cases a.attr <;> simpa only [hn] using t1
+      | top => cases a.attr <;> trivial
+      | end_ => cases a.attr <;> simpa only [hn] using t1
+  case setForceQuirks =>
+    simp only [absTokL, Option.some.injEq] at hl
+    subst hl
+    simp only [lexAct]
+    split
+    · rename_i d hcn
+      refine lexQuiet_tok c _ x none rfl ⟨t1, t2, ?_, t4⟩ hinv (fun e h => by cases h)
+      cases hn : a.nt <;> simp only [hn, TokNT] at t3 ⊢
+      · rw [t3] at hcn; cases hcn
+      · intro r hr; cases hr
+      · intro r hr; cases hr
+    · exact lexQuiet_tok c l x none rfl ht hinv (fun e h => by cases h)
+  case finishDoctypeName =>
+    simp only [absTokL, Option.some.injEq] at hl
+    subst hl
+    simp only [lexAct]
+    split
+    · rename_i d hcn
+      refine lexQuiet_tok c _ x none rfl ⟨t1, t2, ?_, t4⟩ hinv (fun e h => by cases h)
+      cases hn : a.nt <;> simp only [hn, TokNT] at t3 ⊢
+      · rw [t3] at hcn; cases hcn
+      · intro r hr; cases hr
+      · intro r hr; cases hr
+    · exact lexQuiet_tok c l x none rfl ht hinv (fun e h => by cases h)
+  case finishDoctypePublicId =>
+    simp only [absTokL, Option.some.injEq] at hl
+    subst hl
+    simp only [lexAct]
+    split
+    · rename_i d hcn
+      refine lexQuiet_tok c _ x none rfl ⟨t1, t2, ?_, t4⟩ hinv (fun e h => by cases h)
+      cases hn : a.nt <;> simp only [hn, TokNT] at t3 ⊢
+      · rw [t3] at hcn; cases hcn
+      · intro r hr; cases hr
+      · intro r hr; cases hr
+    · exact lexQuiet_tok c l x none rfl ht hinv (fun e h => by cases h)
+  case finishDoctypeSystemId =>
+    simp only [absTokL, Option.some.injEq] at hl
+    subst hl
+    simp only [lexAct]
+    split
+    · rename_i d hcn
+      refine lexQuiet_tok c _ x none rfl ⟨t1, t2, ?_, t4⟩ hinv (fun e h => by cases h)
+      cases hn : a.nt <;> simp only [hn, TokNT] at t3 ⊢
+      · rw [t3] at hcn; cases hcn
+      · intro r hr; cases hr
+      · intro r hr; cases hr
+    · exact lexQuiet_tok c l x none rfl ht hinv (fun e h => by cases h)
+  all_goals
+    simp only [absTokL, Option.some.injEq] at hl
+    subst hl
+    simp only [lexAct]
+    exact lexQuiet_tok _ l x none rfl ht hinv (fun e h => by cases h)
+
 end
 end LolHtml.Model
